@@ -32,6 +32,8 @@ enum Op {
     Register(String, i64, i64, u64, u64),
     Delete(String),
     Complete(Vec<String>, String),
+    /// swap_compacted_chunk(sources, target path, min, max, rows, size): the completion call the compactor uses
+    Swap(Vec<String>, String, i64, i64, u64, u64),
 }
 
 fn gen_point(rng: &mut Rng) -> i64 {
@@ -165,6 +167,24 @@ async fn one_history(ctx: &Ctx, out: &mut Outcome, rng: &mut Rng, idx: u64) {
                 Op::Delete(model.keys().nth(k).unwrap().clone())
             }
             2 => Op::Delete(rng.pick(&paths).clone()), // possibly absent
+            5 if !model.is_empty() => {
+                // the compactor's publication step: 1-3 live sources (now and then a ghost), a fresh or re-used target
+                // path whose interval is independent of the sources' (a level compaction's merged chunk can span
+                // hours none of its sources is indexed under)
+                let mut live: Vec<String> = model.keys().cloned().collect();
+                rng.shuffle(&mut live);
+                let n = 1 + rng.usize(live.len().min(3));
+                let mut sources: Vec<String> = live.into_iter().take(n).collect();
+                if rng.chance(1, 8) {
+                    sources.push("t/data/ghost.parquet".to_string());
+                }
+                // (never one of its own sources: a merged chunk gets a fresh path; now and then another existing path,
+                //  which amounts to a re-registration)
+                let reused = rng.pick(&paths).clone();
+                let target = if rng.chance(1, 4) && !sources.contains(&reused) { reused } else { format!("t/data/merged{}.parquet", step) };
+                let (a, b) = gen_interval(rng);
+                Op::Swap(sources, target, a, b, rng.below(1000), rng.below(100_000))
+            }
             3 | 4 if model.len() >= 2 => {
                 // compaction completion: target registered first (normal use) or not (unknown target)
                 let mut live: Vec<String> = model.keys().cloned().collect();
@@ -202,6 +222,9 @@ async fn one_history(ctx: &Ctx, out: &mut Outcome, rng: &mut Rng, idx: u64) {
                 }
                 Op::Delete(p) => c.delete_chunk(p).await,
                 Op::Complete(s, t) => c.complete_compaction(s, t).await,
+                Op::Swap(s, t, a, b, rows, size) => {
+                    c.swap_compacted_chunk(s, &ChunkMetadata { path: t.clone(), min_timestamp: *a, max_timestamp: *b, row_count: *rows, size_bytes: *size }).await
+                }
             };
             results.push(r.map_err(|e| e.to_string()));
         }
@@ -211,6 +234,16 @@ async fn one_history(ctx: &Ctx, out: &mut Outcome, rng: &mut Rng, idx: u64) {
             }
             Op::Delete(p) => {
                 model.remove(p);
+            }
+            Op::Swap(srcs, t, a, b, rows, size) => {
+                // refused (no effect) unless every source is live; a target that is also a source leaves and re-enters
+                if srcs.iter().all(|p| model.contains_key(p)) {
+                    let lvl = srcs.iter().filter_map(|p| model.get(p).map(|x| x.1)).max().unwrap_or(0) + 1;
+                    for p in srcs {
+                        model.remove(p);
+                    }
+                    model.insert(t.clone(), (M { min: *a, max: *b, rows: *rows, size: *size }, lvl));
+                }
             }
             Op::Complete(s, t) => {
                 if model.contains_key(t) {
